@@ -570,7 +570,13 @@ class LabelsStream(Stream):
                 kws.append([f, [mk() for _ in range(rng.choice([0, 1, 2, 3]))]])
             else:
                 kws.append([f, mk()])
-        return kws
+        # a Python call (and a JSON object after json.loads) cannot carry one keyword twice: keep the first occurrence only
+        seen, uniq = set(), []
+        for k_, v_ in kws:
+            if k_ not in seen:
+                seen.add(k_)
+                uniq.append([k_, v_])
+        return uniq
 
     def gen(self, rng, tier):
         n = 1200 if tier == 'quick' else 16000
@@ -631,7 +637,16 @@ class LabelsStream(Stream):
             recoded = {'err': type(e).__name__}
         return {'ok': fields, 'recoded': recoded}
 
+    @staticmethod
+    def as_call(kws):
+        """what the call sees: dict semantics (position of the first occurrence, value of the last)"""
+        d = {}
+        for k_, v_ in kws:
+            d[k_] = v_
+        return [[k_, v_] for k_, v_ in d.items()]
+
     def to_coq(self, case, o):
+        case = dict(case, kws=self.as_call(case['kws']), base=self.as_call(case['base']))
         if case['entry'] == 'ctor':
             e = 'E_ctor %s' % c_kvs(case['kws'])
         elif case['entry'] == 'update':
@@ -648,6 +663,7 @@ class LabelsStream(Stream):
     # ---- the property, over implementation observables ----
     def expected(self, case):
         """('ok', fields) or ('reject', why) according to the documented domain only"""
+        case = dict(case, kws=self.as_call(case['kws']), base=self.as_call(case.get('base', [])))
         forgiving = case['entry'] == 'from_json'
         cur = {}
         seqs = [case['base'], case['kws']] if case['entry'] == 'update' else [case['kws']]
